@@ -251,8 +251,9 @@ Definition logt (x : nat) (e : tev) (s : state) : state := set_tl s ((x, e) :: t
 Definition letgo (x : nat) (s : state) : state :=
   logt x TGone (set_registry s (filter (fun y => negb (Nat.eqb y x)) (registry s))).
 
-(* UnreadyObject::drop after a rejected recycle *)
-Definition discard (x : nat) (s : state) : state := letgo x (set_size s (size s - 1)).
+(* an idle object leaves the pool: rejected recycle (UnreadyObject::drop), shrink, close, retain *)
+Definition release (x : nat) (s : state) : state :=
+  letgo x (set_size (set_idle s (remove_nat x (idle s))) (size s - 1)).
 
 Definition hand (x : nat) (reused : bool) (s : state) : state :=
   logt x (THand reused (closed (getc s x))) (set_out s (out s ++ [x])).
@@ -271,16 +272,15 @@ Definition create (s : state) : state * list Z :=
   | _ => (set_permits (set_armc s FNone) (permits s + 1), [2; 2; 0])
   end.
 
-(* the loop of timeout_get: [order] = idle objects in pop order *)
+(* the loop of timeout_get: [order] = the idle objects in pop order *)
 Fixpoint get_loop (c : cfg) (order : list nat) (s : state) : state * list Z :=
   match order with
   | [] => create s
   | x :: rest =>
-      let s0 := set_idle s (if lifo c then rev rest else rest) in
-      let '(cn, ms, ok) := recycle (meth c) (getc s0 x) in
-      let s1 := logm x ms (setc s0 x cn) in
-      if ok then (hand x true s1, [1; n2z x; b2z (closed cn)])
-      else get_loop c rest (discard x s1)
+      let '(cn, ms, ok) := recycle (meth c) (getc s x) in
+      let s1 := logm x ms (setc s x cn) in
+      if ok then (hand x true (set_idle s1 (remove_nat x (idle s1))), [1; n2z x; b2z (closed cn)])
+      else get_loop c rest (release x s1)
   end.
 
 (* timeout_get with wait = 0: permits owed to an earlier shrink are retired first *)
@@ -307,10 +307,7 @@ Definition do_take (x : nat) (s : state) : state :=
 Fixpoint shrink (order : list nat) (s : state) : state :=
   match order with
   | [] => s
-  | x :: rest =>
-      if Z.ltb (maxs s) (size s)
-      then shrink rest (letgo x (set_size (set_idle s rest) (size s - 1)))
-      else s
+  | x :: rest => if Z.ltb (maxs s) (size s) then shrink rest (release x s) else s
   end.
 
 Definition resize_locked (n : Z) (s : state) : state :=
@@ -331,21 +328,19 @@ Definition do_resize (n : Z) (s : state) : state := if pclosed s then s else res
 Definition do_close (s : state) : state := resize_locked 0 (set_pclosed s true).
 
 (* retain: [ds] = the predicate's answers in queue order (true once exhausted) *)
-Fixpoint retain_loop (ds : list bool) (order : list nat) (s : state) : state * list nat * Z :=
+Fixpoint retain_loop (ds : list bool) (order : list nat) (s : state) : state * Z :=
   match order with
-  | [] => (s, [], 0)
+  | [] => (s, 0)
   | x :: rest =>
       let keep := match ds with [] => true | d :: _ => d end in
       let ds' := match ds with [] => [] | _ :: r => r end in
-      if keep then
-        let '(s1, kept, removed) := retain_loop ds' rest s in (s1, x :: kept, removed)
-      else
-        let '(s1, kept, removed) := retain_loop ds' rest (letgo x s) in (s1, kept, removed + 1)
+      if keep then retain_loop ds' rest s
+      else let '(s1, removed) := retain_loop ds' rest (release x s) in (s1, removed + 1)
   end.
 
 Definition do_retain (ds : list bool) (s : state) : state * list Z :=
-  let '(s1, kept, removed) := retain_loop ds (idle s) s in
-  (set_size (set_idle s1 kept) (size s1 - removed), [7; n2z (length kept); removed]).
+  let '(s1, removed) := retain_loop ds (idle s) s in
+  (s1, [7; n2z (length (idle s1)); removed]).
 
 (* StatementCaches::clear / remove: every cache in the registry *)
 Fixpoint map_reg (f : conn -> conn) (reg : list nat) (i : nat) (l : list conn) : list conn :=
